@@ -50,18 +50,17 @@ def r1(tree, rep):
             and g.branch_never_reaches(role[0], send_lab, rets["wait-for-decision"])
     rep.check("C07.R1", "a receiver always answers wait-for-decision; only a sender can answer go/nevermind", ok, site(fn, TR),
               key="C07.R1:role-split", what="the receiver side can declare a winner (or the sender waits for a decision nobody makes)")
-    wt = [n for n in g.nodes(lambda s: isinstance(s, ast.If)) if is_self_attr(g.stmt[n].test, "_winner")
-          or (isinstance(g.stmt[n].test, ast.UnaryOp) and is_self_attr(g.stmt[n].test.operand, "_winner"))
-          or (isinstance(g.stmt[n].test, ast.Compare) and is_self_attr(g.stmt[n].test.left, "_winner"))]
-    sets = g.nodes(lambda s: isinstance(s, ast.Assign) and any(is_self_attr(t, "_winner") for t in s.targets))
-    ok = len(wt) == 1 and len(sets) == 1
+    from ..cfg import object_atom
+    gs = build(fn, split=True)
+    has_winner = object_atom(lambda e: is_self_attr(e, "_winner"))
+    go_rets = [n for n in gs.nodes(lambda s: isinstance(s, ast.Return)) if const(gs.stmt[n].value) == "go"]
+    sets = gs.nodes(lambda s: isinstance(s, ast.Assign) and any(is_self_attr(t, "_winner") for t in s.targets))
+    ok = len(sets) == 1 and bool(go_rets)
     if ok:
-        t = g.stmt[wt[0]].test
-        truthy = is_self_attr(t, "_winner") or (isinstance(t, ast.Compare) and isinstance(t.ops[0], ast.IsNot))
-        have_lab, none_lab = ('T', 'F') if truthy else ('F', 'T')
-        ok = g.branch_never_reaches(wt[0], have_lab, rets["go"] + sets) and not g.guarded_by(wt, rets["go"] + sets, none_lab) \
-            and not g.precedes(sets, rets["go"])
-        v = g.stmt[sets[0]].value
+        n_have, bad = gs.when_never_reaches(has_winner, True, go_rets + sets)
+        # with a winner: neither recorded again nor "go"; both only where "no winner yet" was established; recorded before "go"
+        ok = n_have > 0 and not bad and not gs.only_when(go_rets + sets, has_winner, False) and not gs.precedes(sets, go_rets)
+        v = gs.stmt[sets[0]].value
         ok = ok and isinstance(v, ast.Name) and v.id in params(fn)
     rep.check("C07.R1", "\"go\" is answered only on the path that records the winner, and only while no winner exists", ok, site(fn, TR),
               key="C07.R1:first-wins", what="a second connection can be told \"go\" (two winners), or go is answered without recording the winner")
@@ -174,7 +173,7 @@ def r3(tree, rep):
               site(fn, TR), key="C07.R3:complete-before-true")
     # consumption: buf = buf[len(expected):]
     cons = [n for n in ast.walk(fn) if isinstance(n, ast.Assign) and any(is_self_attr(t, "buf") for t in n.targets)]
-    ok = len(cons) == 1 and isinstance(cons[0].value, ast.Subscript) and is_self_attr(cons[0].value.value, "buf") \
+    ok = len(cons) == 1 and isinstance(cons[0].value, ast.Subscript) and buf(cons[0].value.value) \
         and isinstance(cons[0].value.slice, ast.Slice) and cons[0].value.slice.upper is None and cons[0].value.slice.lower is not None \
         and is_len(exp)(cons[0].value.slice.lower)
     rep.check("C07.R3", "_check_and_remove consumes exactly the matched bytes", ok, site(fn, TR), key="C07.R3:consume")
